@@ -98,6 +98,14 @@ def main():
                  "20 A=1\n10 B=2", "10 GOTO 99999", "10 GOTO 40000", "32700 A=1", "10 ON ERR GOTO 10:ON ERR GOTO 10", "10 " + "A=1:" * 300 + "B=2",
                  "10 A=" + "(" * 40 + "1" + ")" * 40, "10 A=" + "-" * 30 + "1", "10 PRINT " + "\"X\";" * 200, "10 REM " + "X" * 5000]:
         plan.append((text, {}, "any", "edge-text"))
+    # every arrangement of FOR and NEXT forms, balanced or not (a NEXT naming more variables than there are open loops, ...)
+    loopforms = ["FOR I=1 TO 2", "FOR J=1 TO 2", "NEXT", "NEXT I", "NEXT J", "NEXT I,J", "NEXT J,I", "NEXT J,I,I", "A=1"]
+    for n in range(1, 5 if thorough else 4):
+        for combo in itertools.product(loopforms, repeat=n):
+            if any(c.startswith("NEXT") for c in combo):
+                plan.append(("10 " + ":".join(combo), {}, "any", "loop-structure"))
+                if n == 2:
+                    plan.append(("10 %s\n20 %s" % combo, {}, "any", "loop-structure"))
     # option sets on valid programs
     payload = []
     for i, (src, o, exp, sit) in enumerate(plan):
